@@ -86,7 +86,9 @@ pub async fn resolve_host_with_cache(host: &str, port: u16) -> Result<SocketAddr
 
     if let Some(addr) = DNS_CACHE.get(host).await {
         DNS_CACHE.advance(host).await;
-        return Ok(addr);
+        // The cached entry carries the port of the request that filled it: answer with the
+        // port of *this* request.
+        return Ok(SocketAddr::new(addr.ip(), port));
     }
 
     let resolver_opt = DNS_RESOLVER.read().await.clone();
